@@ -439,6 +439,24 @@ fn dump_answers(host: &AnalysisHost, ws: &Value, rev: bool) -> std::collections:
                 format!("{id}:semantic"),
                 guarded(|| a.syntax_highlight(file, None), |hs| Value::Array(hs.iter().map(|h| json!([u32::from(h.range.start()), u32::from(h.range.end()), format!("{:?}", h.tag)])).collect())),
             );
+            // ranged requests whose window starts / ends strictly inside a tagged identifier
+            let tagged: Vec<(u32, u32)> = match a.syntax_highlight(file, None) {
+                Ok(hs) => hs.iter().map(|h| (u32::from(h.range.start()), u32::from(h.range.end()))).collect(),
+                Err(_) => Vec::new(),
+            };
+            let len = text.len() as u32;
+            let mut windows = Vec::new();
+            for (s, e) in tagged.iter().copied().filter(|(s, e)| e - s >= 2).take(6) {
+                for (ws, we) in [(s + 1, (e + 3).min(len)), (s.saturating_sub(3), e - 1)] {
+                    if !text.is_char_boundary(ws as usize) || !text.is_char_boundary(we as usize) || ws > we {
+                        continue;
+                    }
+                    let w = syntax::TextRange::new(ws.into(), we.into());
+                    let got = guarded(|| a.syntax_highlight(file, Some(w)), |hs| Value::Array(hs.iter().map(|h| json!([u32::from(h.range.start()), u32::from(h.range.end()), format!("{:?}", h.tag)])).collect()));
+                    windows.push(json!([ws, we, got]));
+                }
+            }
+            out.insert(format!("{id}:semantic_windows"), Value::Array(windows));
         };
         if rev {
             file_level(&mut out);
